@@ -1,6 +1,7 @@
 package vsched
 
 import (
+	"fmt"
 	"time"
 	"unsafe"
 )
@@ -81,11 +82,22 @@ func After(d time.Duration) <-chan time.Time {
 	return c
 }
 
-// Timer mirrors time.Timer for the subset fpGo-style code uses.
+// Timer mirrors time.Timer. The module under test declares `go 1.18`, so a timer has the channel
+// semantics of Go < 1.23 (what the module's own tests run under): C is a channel with one buffer slot,
+// the runtime does a non-blocking send into it when the timer fires, and neither Stop nor Reset removes
+// a value that is already there. The firing is a model thread of its own (parked until the clock
+// reaches the due time), so "fires between the select and the Stop" is one of the explored schedules.
 type Timer struct {
 	C  <-chan time.Time
-	cs *chanState
+	cs *chanState // AfterFunc only (lazy model)
 	rt *time.Timer
+
+	c     chan time.Time
+	gen   int
+	armed bool
+	op    *pend
+	th    *Thread
+	hb    hbObj
 }
 
 func NewTimer(d time.Duration) *Timer {
@@ -94,37 +106,116 @@ func NewTimer(d time.Duration) *Timer {
 		rt := time.NewTimer(d)
 		return &Timer{C: rt.C, rt: rt}
 	}
-	c := After(d)
-	return &Timer{C: c, cs: x.chans[*(*unsafe.Pointer)(unsafe.Pointer(&c))]}
+	c := make(chan time.Time, 1)
+	t := &Timer{C: c, c: c}
+	x.chanOf(chanKey(c), 1)
+	x.point(&pend{desc: "NewTimer"})
+	t.arm(x, d)
+	return t
 }
 
-// Stop prevents the timer from firing; reports whether it was still pending.
+func (t *Timer) arm(x *Exec, d time.Duration) {
+	t.gen++
+	g := t.gen
+	t.armed = true
+	due := x.clock
+	if d > 0 {
+		due += int64(d)
+	}
+	x.hbEvent(&t.hb, kTimer, uint64(due)*4+1)
+	p := x.cur
+	p.spawns++
+	th := x.newThread(fmt.Sprintf("%s.%d", p.Name, p.spawns), false, func() {
+		if t.gen != g || !t.armed {
+			return // stopped / re-armed before the runtime looked at it
+		}
+		op := &pend{desc: "timer due " + time.Duration(due).String(), due: due}
+		op.ready = func() bool { return t.gen == g && t.armed && x.clock >= due }
+		t.op = op
+		x.point(op)
+		t.armed = false
+		t.op = nil
+		x.hbEvent(&t.hb, kTimer, 2)
+		cs := x.chanOf(chanKey(t.c), 1)
+		if cs.canSend() {
+			v := timeBase.Add(time.Duration(x.clock))
+			x.doSend(cs, &v, copyT[time.Time])
+			x.tracef("timer fired")
+		} else {
+			x.tracef("timer fired, channel already holds a value: dropped")
+		}
+	})
+	th.daemon = true
+	th.op.due = due // not started yet: already counts as an armed timer for the clock
+	t.th = th
+}
+
+// disarm cancels the pending firing, if any; reports whether there was one.
+func (t *Timer) disarm(x *Exec) bool {
+	was := t.armed
+	t.armed = false
+	if t.op != nil {
+		t.op.due = 0 // never becomes ready again; the clock is not advanced on its behalf
+		t.op = nil
+	}
+	if t.th != nil && t.th.op != nil {
+		t.th.op.due = 0
+	}
+	return was
+}
+
+// Stop prevents the timer from firing; reports whether it was still pending. A value already sent to
+// C stays there.
 func (t *Timer) Stop() bool {
 	if t.rt != nil {
 		return t.rt.Stop()
 	}
-	x := X
-	if x == nil || t.cs == nil {
+	if t.c == nil { // AfterFunc
+		x := X
+		if x == nil || t.cs == nil {
+			return false
+		}
+		pending := !t.cs.taken && x.clock < t.cs.due
+		t.cs.taken = true
+		return pending
+	}
+	x := active()
+	if x == nil {
 		return false
 	}
-	pending := !t.cs.taken && x.clock < t.cs.due
-	t.cs.taken = true
-	return pending
+	x.point(&pend{desc: "Timer.Stop"})
+	was := t.disarm(x)
+	var e uint64
+	if was {
+		e = 1
+	}
+	x.hbEvent(&t.hb, kTimer, 4+e)
+	return was
 }
 
-// Reset re-arms the timer.
+// Reset re-arms the timer; reports whether it was still pending. A value already sent to C stays there.
 func (t *Timer) Reset(d time.Duration) bool {
 	if t.rt != nil {
 		return t.rt.Reset(d)
 	}
-	x := X
-	if x == nil || t.cs == nil {
+	if t.c == nil { // AfterFunc
+		x := X
+		if x == nil || t.cs == nil {
+			return false
+		}
+		pending := !t.cs.taken && x.clock < t.cs.due
+		t.cs.taken = false
+		t.cs.due = x.clock + int64(d)
+		return pending
+	}
+	x := active()
+	if x == nil {
 		return false
 	}
-	pending := !t.cs.taken && x.clock < t.cs.due
-	t.cs.taken = false
-	t.cs.due = x.clock + int64(d)
-	return pending
+	x.point(&pend{desc: "Timer.Reset"})
+	was := t.disarm(x)
+	t.arm(x, d)
+	return was
 }
 
 // AfterFunc runs f on its own model thread once the clock reaches now+d.
